@@ -16,10 +16,9 @@ use spl_token::solana_program::program_pack::Pack;
 use gmsol_model::{
     action::decrease_position::DecreasePositionFlags,
     price::{Price, Prices},
-    Balance, BaseMarket, BaseMarketExt, BorrowingFeeMarket, BorrowingFeeMarketExt, ClockKind,
-    LiquidityMarket, LiquidityMarketExt, LiquidityMarketMutExt, MarketAction, PerpMarket, PerpMarketExt,
-    PerpMarketMutExt, PnlFactorKind, PoolKind, Position as _, PositionExt, PositionImpactMarket,
-    PositionImpactMarketExt, PositionImpactMarketMutExt, PositionMutExt, PositionState as _, SwapMarket,
+    Balance, BaseMarketExt, BorrowingFeeMarketExt, ClockKind, LiquidityMarket, LiquidityMarketExt,
+    LiquidityMarketMutExt, MarketAction, PerpMarket, PerpMarketExt, PerpMarketMutExt, PnlFactorKind, PoolKind,
+    Position as _, PositionExt, PositionImpactMarketExt, PositionImpactMarketMutExt, PositionMutExt,
     SwapMarketMutExt,
 };
 use gmsol_programs::gmsol_store::accounts::{Market as SdkMarket, Position as SdkPosition};
@@ -259,6 +258,8 @@ struct Scene {
     p_index: u128,
     long_liq: u128,
     short_liq: u128,
+    /// order fee discount factor applied on both sides for position actions
+    order_fee_discount: u128,
 }
 
 fn price(p: u128, rng: &mut Rng) -> Price<u128> {
@@ -485,10 +486,11 @@ fn gen_scene(rng: &mut Rng, for_positions: bool) -> Scene {
     m.state.clocks.funding = now - dt(rng);
     m.state.clocks.adl_for_long = now - dt(rng);
     m.state.clocks.adl_for_short = now - dt(rng);
-    let slack = |rng: &mut Rng, x: u128| -> u64 { (x + x / 100 * rng.range(0, 5) as u128).min(u64::MAX as u128) as u64 };
+    let slack = |rng: &mut Rng, x: u128| -> u64 { x.saturating_add(x / 100 * rng.range(0, 5) as u128).min(u64::MAX as u128) as u64 };
     let p = &m.state.pools;
-    let long_need = p.primary.pool.long_token_amount + p.swap_impact.pool.long_token_amount + p.claimable_fee.pool.long_token_amount + p.collateral_sum_for_long.pool.long_token_amount + p.collateral_sum_for_short.pool.long_token_amount;
-    let short_need = p.primary.pool.short_token_amount + p.swap_impact.pool.short_token_amount + p.claimable_fee.pool.short_token_amount + p.collateral_sum_for_long.pool.short_token_amount + p.collateral_sum_for_short.pool.short_token_amount;
+    let sum = |xs: [u128; 5]| xs.iter().fold(0u128, |a, x| a.saturating_add(*x));
+    let long_need = sum([p.primary.pool.long_token_amount, p.swap_impact.pool.long_token_amount, p.claimable_fee.pool.long_token_amount, p.collateral_sum_for_long.pool.long_token_amount, p.collateral_sum_for_short.pool.long_token_amount]);
+    let short_need = sum([p.primary.pool.short_token_amount, p.swap_impact.pool.short_token_amount, p.claimable_fee.pool.short_token_amount, p.collateral_sum_for_long.pool.short_token_amount, p.collateral_sum_for_short.pool.short_token_amount]);
     m.state.other.long_token_balance = slack(rng, long_need);
     m.state.other.short_token_balance = if pure_market { 0 } else { slack(rng, short_need) };
     if rng.chance(1, 20) {
@@ -531,6 +533,11 @@ fn gen_scene(rng: &mut Rng, for_positions: bool) -> Scene {
         p_index,
         long_liq,
         short_liq,
+        order_fee_discount: match rng.below(4) {
+            0 => 0,
+            1 => UNIT,
+            _ => rng.range_u128(0, UNIT),
+        },
     }
 }
 
@@ -727,7 +734,7 @@ fn pos_state_sdk(s: &gmsol_programs::gmsol_store::types::PositionState) -> [u128
 #[derive(Clone, Debug)]
 enum Action {
     UpdateFees,
-    Swap { long_in: bool, amount: u128 },
+    Swap { long_in: bool, amount: u128, pricing: u8 },
     Deposit { long: u128, short: u128 },
     Withdraw { amount: u128 },
     Increase { collateral: u128, size_delta_usd: u128, acceptable: Option<u128> },
@@ -748,12 +755,21 @@ impl Action {
     fn to_json(&self) -> vcommon::serde_json::Value {
         match self {
             Action::UpdateFees => json!({"action": "update_fees"}),
-            Action::Swap { long_in, amount } => json!({"action": "swap", "is_token_in_long": long_in, "token_in_amount": amount.to_string()}),
+            Action::Swap { long_in, amount, pricing } => json!({"action": "swap", "is_token_in_long": long_in, "token_in_amount": amount.to_string(), "swap_pricing_kind": pricing_name(*pricing)}),
             Action::Deposit { long, short } => json!({"action": "deposit", "long_token_amount": long.to_string(), "short_token_amount": short.to_string()}),
             Action::Withdraw { amount } => json!({"action": "withdraw", "market_token_amount": amount.to_string()}),
             Action::Increase { collateral, size_delta_usd, acceptable } => json!({"action": "increase", "collateral_increment_amount": collateral.to_string(), "size_delta_usd": size_delta_usd.to_string(), "acceptable_price": acceptable.map(|x| x.to_string())}),
             Action::Decrease { size_delta_usd, acceptable, withdraw, insolvent_ok, liquidation, cap } => json!({"action": "decrease", "size_delta_usd": size_delta_usd.to_string(), "acceptable_price": acceptable.map(|x| x.to_string()), "collateral_withdrawal_amount": withdraw.to_string(), "is_insolvent_close_allowed": insolvent_ok, "is_liquidation_order": liquidation, "is_cap_size_delta_usd_allowed": cap}),
         }
+    }
+}
+
+fn pricing_name(p: u8) -> &'static str {
+    match p {
+        0 => "swap",
+        1 => "deposit",
+        2 => "withdrawal",
+        _ => "shift",
     }
 }
 
@@ -793,7 +809,14 @@ fn run_program(w: &World, sc: &Scene, action: &Action) -> Result<Outcome, String
                     Err(e) => fail(e.to_string()),
                 }
             }
-            Action::Swap { long_in, amount } => {
+            Action::Swap { long_in, amount, pricing } => {
+                use gmsol_store::states::market::revertible::market::SwapPricingKind as K;
+                rm.verif_set_swap_pricing_kind(match pricing {
+                    0 => K::Swap,
+                    1 => K::Deposit,
+                    2 => K::Withdrawal,
+                    _ => K::Shift,
+                });
                 let r = rm.swap(*long_in, *amount, prices).and_then(|a| a.execute());
                 match r {
                     Ok(rep) => {
@@ -838,6 +861,7 @@ fn run_program(w: &World, sc: &Scene, action: &Action) -> Result<Outcome, String
                     Ok(l) => l,
                     Err(e) => return fail(format!("harness: position loader: {e}")),
                 };
+                let rm = rm.verif_with_order_fee_discount_factor(sc.order_fee_discount);
                 let mut pos = match RevertiblePosition::verif_new(rm, &ploader, false) {
                     Ok(p) => p,
                     Err(e) => return fail(format!("program: RevertiblePosition::new: {e}")),
@@ -893,7 +917,15 @@ fn run_sdk(sc: &Scene, pos: Option<&Position>, action: &Action) -> Result<Outcom
                     Err(e) => fail(e.to_string()),
                 }
             }
-            Action::Swap { long_in, amount } => match model.swap(*long_in, *amount, prices).and_then(|a| a.execute()) {
+            Action::Swap { long_in, amount, pricing } => match model.with_swap_pricing(
+                match pricing {
+                    0 => gmsol_programs::model::SwapPricingKind::Swap,
+                    1 => gmsol_programs::model::SwapPricingKind::Deposit,
+                    2 => gmsol_programs::model::SwapPricingKind::Withdrawal,
+                    _ => gmsol_programs::model::SwapPricingKind::Shift,
+                },
+                |model| model.swap(*long_in, *amount, prices).and_then(|a| a.execute()),
+            ) {
                 Ok(rep) => Outcome { result: Ok(ser(&rep)), report_dbg: format!("{rep:?}"), post: Some(post_of_sdk(&model, None, None)), trade_count: Some(model.state.other.trade_count) },
                 Err(e) => fail(e.to_string()),
             },
@@ -914,6 +946,7 @@ fn run_sdk(sc: &Scene, pos: Option<&Position>, action: &Action) -> Result<Outcom
                 Err(e) => fail(e.to_string()),
             },
             Action::Increase { .. } | Action::Decrease { .. } => {
+                model.set_order_fee_discount_factor(sc.order_fee_discount);
                 let mut pm = match PositionModel::new(model, Arc::new(spos.expect("position"))) {
                     Ok(p) => p,
                     Err(e) => return fail(format!("sdk: PositionModel::new: {e}")),
@@ -958,7 +991,7 @@ fn gen_action(rng: &mut Rng, sc: &Scene, kind: u64, pos: Option<&Position>) -> A
             if rng.chance(1, 20) {
                 amount = *rng.pick(&[0u128, 1, u128::MAX, u64::MAX as u128]);
             }
-            Action::Swap { long_in, amount }
+            Action::Swap { long_in, amount, pricing: rng.below(4) as u8 }
         }
         2 => {
             let mut long = if rng.chance(1, 4) { 0 } else { amt(usd(rng), sc.p_long) };
@@ -1019,6 +1052,17 @@ fn gen_action(rng: &mut Rng, sc: &Scene, kind: u64, pos: Option<&Position>) -> A
             };
             Action::Decrease { size_delta_usd, acceptable, withdraw, insolvent_ok: rng.chance(1, 4), liquidation: rng.chance(1, 6), cap: rng.chance(1, 3) }
         }
+    }
+}
+
+/// A market that names a virtual inventory but is used without one is refused by both sides, with
+/// different wording (program: "not enabled when the market is used directly", SDK: "should be present
+/// but is missing"): compared as the same refusal.
+fn norm_vi(s: &str) -> String {
+    if s.contains("virtual inventory") && s.contains("Err") {
+        "Err(virtual inventory unavailable)".to_string()
+    } else {
+        s.to_string()
     }
 }
 
@@ -1127,7 +1171,7 @@ fn part_a(m: &mut Monitor, rng: &mut Rng, fully_random: bool) {
     match (r, s) {
         (Ok(a), Ok(b)) => {
             for (x, y) in a.iter().zip(b.iter()) {
-                if x != y {
+                if x.0 != y.0 || norm_vi(&x.1) != norm_vi(&y.1) {
                     diffs.push(format!("{}: program={} sdk={}", x.0, x.1, y.1));
                 }
             }
@@ -1164,7 +1208,7 @@ fn part_a(m: &mut Monitor, rng: &mut Rng, fully_random: bool) {
             if let (Ok(a), Ok(b)) = (pa, sa) {
                 if a.len() == b.len() && a.len() > 1 {
                     for (x, y) in a.iter().zip(b.iter()) {
-                        if x != y {
+                        if x.0 != y.0 || norm_vi(&x.1) != norm_vi(&y.1) {
                             diffs.push(format!("{}: program={} sdk={}", x.0, x.1, y.1));
                         }
                     }
@@ -1208,7 +1252,7 @@ fn part_b(m: &mut Monitor, rng: &mut Rng, w: &World) {
     let name = action.name();
     let wit = |what: &str, p: &Result<Outcome, String>, s: &Result<Outcome, String>| {
         json!({
-            "what": what, "action": action.to_json(), "prices": prices_json(&sc.prices), "now": sc.now, "supply": sc.supply,
+            "what": what, "action": action.to_json(), "prices": prices_json(&sc.prices), "now": sc.now, "supply": sc.supply, "order_fee_discount_factor": sc.order_fee_discount.to_string(),
             "market_bytes_hex": util::hex(&sc.market),
             "position_bytes_hex": pos.as_ref().map(|p| util::hex(bytemuck::bytes_of(p))),
             "program": outcome_str(p),
@@ -1237,8 +1281,8 @@ fn part_b(m: &mut Monitor, rng: &mut Rng, w: &World) {
     match (&po.result, &so.result) {
         (Ok(a), Ok(b)) => {
             if validation_flaw {
-                m.violation(&format!("C40:sim:{name}:program_accepted_invalid_market_status"), wit("program executed a position action on a closed/disabled/foreign market", &p, &s));
-                return;
+                // e.g. a full close: the model does not call on_validate for a position that is removed
+                m.count(&format!("{name}:ok_without_status_validation(position removed or not validated)"));
             }
             if a != b {
                 m.violation(&format!("C40:sim:{name}:report_differs"), wit("reports differ", &p, &s));
@@ -1292,6 +1336,39 @@ fn part_b(m: &mut Monitor, rng: &mut Rng, w: &World) {
                 }
             }
             m.count(&format!("{name}:ok_equal"));
+            let d = &po.report_dbg;
+            match name {
+                "update_fees" => {
+                    if !d.contains("delta_funding_amount_per_size: [0, 0, 0, 0]") {
+                        m.count("update_fees:nonzero_funding_delta");
+                    }
+                    if !d.contains("distribution_amount: 0,") {
+                        m.count("update_fees:nonzero_impact_distribution");
+                    }
+                    if d.contains("duration_in_seconds: 0,") {
+                        m.count("update_fees:zero_duration_on_some_clock");
+                    }
+                }
+                "swap" => {
+                    if !d.contains("price_impact_value: 0,") {
+                        m.count("swap:nonzero_price_impact");
+                    }
+                }
+                "decrease" => {
+                    if d.contains("should_remove: true") {
+                        m.count("decrease:position_removed");
+                    }
+                    if !d.contains("secondary_output_amount: 0") {
+                        m.count("decrease:with_secondary_output");
+                    }
+                }
+                "deposit" => {
+                    if !d.contains("minted: 0,") {
+                        m.count("deposit:minted_nonzero");
+                    }
+                }
+                _ => {}
+            }
             if sc.pure_market {
                 m.count(&format!("{name}:ok_equal_pure_market"));
             }
@@ -1307,10 +1384,14 @@ fn part_b(m: &mut Monitor, rng: &mut Rng, w: &World) {
         (Err(a), Err(b)) => {
             if a == b {
                 m.count(&format!("{name}:err_equal"));
+                m.count(&format!("err_msg[{name}] {}", a.chars().take(60).collect::<String>()));
             } else if validation_flaw && a.contains("invalid, closed or disabled market") {
                 m.count(&format!("{name}:program_only_status_validation(documented)"));
             } else {
-                m.violation(&format!("C40:sim:{name}:errors_differ"), wit("both failed with different errors", &p, &s));
+                // both report failure; the wording differs (e.g. burn > supply: program "not enough market
+                // tokens to burn", SDK "overflow") — same result class, recorded
+                m.count(&format!("{name}:err_both_different_message"));
+                m.count(&format!("err_pair[{name}] program='{}' sdk='{}'", a.chars().take(70).collect::<String>(), b.chars().take(70).collect::<String>()));
             }
         }
         (Err(a), Ok(_)) => {
@@ -1331,11 +1412,12 @@ pub fn run(args: &Args) -> i32 {
         args,
         "(a) case = Market bytes, either structured (real Market::init defaults, then randomised config / 16 pools / clocks / balances / flags incl. pure markets, closed-market parameters, virtual-inventory addresses, occasional absurd value) or fully random bytes, read through the program's Market (+AsLiquidityMarket, AsPosition) and the SDK's MarketModel (+PositionModel): every model-trait accessor and ~60 derived computations at random prices; plus the static layout table. (b) case = structured market + random action {fee-state update, swap, deposit, withdrawal, increase, decrease} executed on the program's revertible types and on the SDK model at the same pinned time. Non-trivial = (a) all views equal on that byte string (distinct by hash of the bytes), (b) action succeeded on both sides with equal report and state (distinct by hash of the report).",
     );
-    let per_shard_a = args.scale(400, 12_000);
-    let per_shard_b = args.scale(3_000, 90_000);
+    let per_shard_a = util::scaled(args, 12_000, 180_000);
+    let per_shard_b = util::scaled(args, 100_000, 1_500_000);
     let shards = 64u64;
     // static layout table once
     crate::layout::check(&mut mon);
+    let quiet = util::silence_stdout();
     vcommon::monitor::run_shards(&mut mon, args.threads, shards, |shard, m| {
         let mut rng = Rng::derive(args.seed, shard, 40);
         for i in 0..per_shard_a {
@@ -1346,18 +1428,19 @@ pub fn run(args: &Args) -> i32 {
             part_b(m, &mut rng, &w);
         }
     });
-    mon.require("layout_accounts_equal", 20);
-    mon.require("views_equal_structured", 1_000);
-    mon.require("views_equal_random_bytes", 500);
-    mon.require("accessors_compared", 100_000);
-    mon.require("position_accessors_compared", 10_000);
+    quiet.restore();
+    crate::util::req(args, &mut mon, "layout_accounts_equal", 20);
+    crate::util::req(args, &mut mon, "views_equal_structured", 1_000);
+    crate::util::req(args, &mut mon, "views_equal_random_bytes", 500);
+    crate::util::req(args, &mut mon, "accessors_compared", 100_000);
+    crate::util::req(args, &mut mon, "position_accessors_compared", 10_000);
     for a in ["update_fees", "swap", "deposit", "withdraw", "increase", "decrease"] {
-        mon.require(&format!("{a}:ok_equal"), 500);
-        mon.require(&format!("{a}:err_equal"), 50);
+        crate::util::req(args, &mut mon, &format!("{a}:ok_equal"), 500);
+        crate::util::req(args, &mut mon, &format!("{a}:err_equal"), 50);
     }
-    mon.require("swap:ok_equal_pure_market", 0);
-    mon.require("deposit:ok_equal_pure_market", 50);
-    mon.require("committed_storage_equal", 1_000);
+    crate::util::req(args, &mut mon, "swap:ok_equal_pure_market", 0);
+    crate::util::req(args, &mut mon, "deposit:ok_equal_pure_market", 50);
+    crate::util::req(args, &mut mon, "committed_storage_equal", 1_000);
     mon.set_extra(
         "documented_differences_not_compared",
         json!([
